@@ -209,4 +209,11 @@ def run_check(prop, tier, seed, replay, t0):
     if rc == 0 and observed_nothing and not replay:
         print(f"BROKEN: property={prop} the monitors observed nothing (not a verdict)")
         return 2
+    # a run in which most cases were screened out as inconclusive decided (almost) nothing: on the unchanged tree the
+    # largest share is about a quarter (C01, degenerate U-turn decisions); a change that pushes every case into a
+    # screening rule must not read as "held" (seeded change C01-i did exactly that before the zero-span rule)
+    n_inc = sum(inc.values()) if inc else 0
+    if rc == 0 and not replay and rep.get("evaluations", 0) > 0 and n_inc > 0.6 * rep.get("evaluations", 0):
+        print(f"BROKEN: property={prop} {n_inc} of {rep.get('evaluations')} cases were inconclusive: nothing decided (not a verdict)")
+        return 2
     return rc
